@@ -164,7 +164,12 @@ def Slot.entry (s : Slot) : Entry := { route := s.outs, key := s.key, mask := s.
 
 abbrev Tables := List (ChipXY × List Entry)
 
-def chipsOf (st : List Slot) : List ChipXY := (st.map (·.chip)).eraseDups
+/-- keys of a dict in order of first insertion -/
+def firsts : List ChipXY → List ChipXY
+  | [] => []
+  | c :: cs => c :: (firsts cs).filter (fun x => x != c)
+
+def chipsOf (st : List Slot) : List ChipXY := firsts (st.map (·.chip))
 
 /-- the second loop: one list per chip, entries in insertion order -/
 def tablesOf (st : List Slot) : Tables :=
